@@ -133,6 +133,10 @@ type fakeServer struct {
 	onExec  func(l *logged)    // observer, called under mu
 	onInval func(i inval)      // observer, called before delivery (no lock held)
 	failCmd func(cmd []string) string // fault injection: non-empty = error text to answer instead of executing
+	// afterReply runs in the caller's goroutine after a command's reply is final and its invalidations
+	// are delivered, before the reply is handed back: lets a suite order another client's step exactly
+	// between a read and the reader's next action
+	afterReply func(cl *fakeClient, cmd []string, r reply)
 	owner   map[int][]string          // connection id -> the rueidisid: keys it SET (liveness keys; concurrent keepalives may create a spare one)
 }
 
@@ -546,6 +550,9 @@ func (f *fakeServer) exec(cl *fakeClient, ctx context.Context, cmd []string, cac
 	r := f.exec1(cl, ctx, cmd, cacheTTL, cached)
 	if !f.hold {
 		f.flush()
+	}
+	if f.afterReply != nil {
+		f.afterReply(cl, cmd, r)
 	}
 	return r
 }
